@@ -233,4 +233,5 @@ sites! {
     IO_TIMEOUT_TIMER_TAKEN = 246,
     IO_SCHEDULE_TOOK = 247,
     IO_CANCEL_TOOK = 248,
+    EP_DEL_FD_ENTER = 249,
 }
